@@ -12,8 +12,20 @@ def rows_of(reply):
     return [o["row"] for o in reply.get("outs", []) if isinstance(o, dict)]
 
 
+def failed_row(req, reply):
+    """A generator that raised while it was asked for a row (the place holder is allowed to)."""
+    if req["k"] == "gen" and "err" not in reply and req["gen"]["type"] != "placeholder":
+        for o in reply.get("outs", []):
+            if isinstance(o, str) and o not in ("KeyError",):
+                return f"the row generator raised {o} when asked for a row"
+    return None
+
+
 def oracle_complete(req, reply):
     """C01: every produced row contains each bell of the start row exactly once."""
+    bad = failed_row(req, reply)
+    if bad:
+        return bad
     if req["k"] == "permute":
         if not is_perm(reply["row"], req["row"]):
             return f"permute produced {reply['row']} from {req['row']}"
@@ -31,6 +43,9 @@ def oracle_complete(req, reply):
 
 def oracle_legal(req, reply):
     """C03: neighbours swap, nobody jumps, covers stay, named places are made."""
+    bad = failed_row(req, reply)
+    if bad:
+        return bad
     if req["k"] == "permute":
         stage, row, out, places = req["stage"], req["row"], reply["row"], req["places"]
         for i, b in enumerate(row):
